@@ -21,6 +21,9 @@ def run(ctx, R, tier):
     # order, each once, by this chunk's duration (the C05 rule)
     from .c05 import order as chunk_order
     chunk_order(F, R)
+    # a position / orientation / strength request is written whatever the handle remembers having asked for before
+    from .c07 import write_unconditional
+    write_unconditional(F, R, rule='B.C15.cmd', floor=4, fn_filter=lambda q: q.startswith('listener::handle') or 'spatial_handle' in q)
     c08.drain(F, R)
     c08.sweep(F, R)
     c08.drops(F, R)
